@@ -514,6 +514,9 @@ func genSmoke(r *common.Rng) (ConfigC, SmokePlan) {
 		}
 	} else {
 		via := ClientC{Name: "via", Proto: p, EP: true, Addr: "@TEST@", ETCP: true, EUDP: udp, Net: common.Pick(r, []string{"", "ip", "ip4"})}
+		if r.Bool() { // split-address form: one address per enabled network
+			via.EP, via.TA, via.UA = false, true, udp
+		}
 		if udp {
 			via.MTU = common.Pick(r, []int{1280, 1500})
 		}
